@@ -1,0 +1,12 @@
+//go:build verif
+
+package subscribe
+
+// VerifHook, when set, is called at every schedule point with the point's name.
+var VerifHook func(string)
+
+func verifPoint(name string) {
+	if h := VerifHook; h != nil {
+		h(name)
+	}
+}
